@@ -1,0 +1,42 @@
+/*
+ * Copyright 2025 The RuleGo Authors.
+ *
+ * Licensed under the Apache License, Version 2.0 (the "License");
+ * you may not use this file except in compliance with the License.
+ * You may obtain a copy of the License at
+ *
+ *     http://www.apache.org/licenses/LICENSE-2.0
+ *
+ * Unless required by applicable law or agreed to in writing, software
+ * distributed under the License is distributed on an "AS IS" BASIS,
+ * WITHOUT WARRANTIES OR CONDITIONS OF ANY KIND, either express or implied.
+ * See the License for the specific language governing permissions and
+ * limitations under the License.
+ */
+
+package window
+
+import "strings"
+
+// Keyed windows (counting, session, global) keep per-group state under a key
+// built by joining the GROUP BY values with groupKeySep. The join must be
+// injective, otherwise rows of different groups share one buffer/session/running
+// aggregate although the aggregation that follows tells them apart:
+// ('a|b','c') and ('a','b|c') both gave "a|b|c", and NULL gave the same part as the empty string.
+const (
+	groupKeySep = "|"
+	// nullGroupKeyPart is the key part of a NULL or missing grouping value
+	// (same marker as the aggregator's NULL group).
+	nullGroupKeyPart = "\x00NULL"
+)
+
+var groupKeyEscaper = strings.NewReplacer(`\`, `\\`, groupKeySep, `\`+groupKeySep)
+
+// groupKeyPart escapes one stringified grouping value so that joining the parts
+// with groupKeySep cannot collide with another tuple.
+func groupKeyPart(s string) string {
+	if !strings.ContainsAny(s, `\`+groupKeySep) {
+		return s
+	}
+	return groupKeyEscaper.Replace(s)
+}
